@@ -77,6 +77,8 @@ INCOMPAT = {
     # class -> (mod, formats it applies to, convertible with allow_changes)
     "generalized_mo": ({"op": "mo_generalized"}, ["fchk", "molden", "molekel", "wfn", "wfx"], False),
     "occs_aminusb": ({"op": "mo_aminusb"}, ["molden", "molekel", "wfn", "wfx"], True),
+    # spin-paired open shell: occs_aminusb is present but all zero (still "restricted orbitals with occs_aminusb")
+    "occs_aminusb_zero": ({"op": "mo_aminusb_zero"}, ["molden", "molekel", "wfn", "wfx"], True),
     "gen_contraction": ({"op": "gen_contraction"}, ["fchk", "molden", "molekel", "wfn", "wfx"], True),
     "pure_functions": ({"op": "pure_shell"}, ["wfn", "wfx"], False),
     "nonaufbau": ({"op": "nonaufbau"}, ["fchk"], False),
@@ -365,7 +367,12 @@ def run_once(w, faults, budget=None):
     knobs = w.get("knobs", {})
     disk = seams.SimDisk(buffer_size=knobs.get("buffer_size", 8192), chunk_size=knobs.get("chunk_size"))
     path = w["filename"]
-    if w.get("target_pre") is not None:
+    env = w.get("env") or {}
+    if env.get("missing_dir"):
+        disk.declare_missing(env["missing_dir"])  # the target lies in a directory that does not exist
+    if env.get("cwd_gone"):
+        disk.cwd_gone = True  # the working directory was removed under the process: os.getcwd() raises
+    if w.get("target_pre") is not None and not env.get("missing_dir"):
         disk.put(path, w["target_pre"].encode())
     plan_ = seams.WritePlan.from_faults(faults)
     disk.plans[path] = plan_
@@ -412,6 +419,7 @@ def run_once(w, faults, budget=None):
     rec["open_events"] = len(disk.events_for(path, ("open_w",)))
     rec["seam_events"] = len(disk.events_for(path, ("open_w", "open_r", "twrite", "rwrite", "rclose", "twrite_fail", "rwrite_fail")))
     rec["handles_open"] = len(disk.open_handles())
+    rec["mkdirs"] = sorted(e["p"] for e in disk.events if e["e"] == "mkdir")
     rec["ntext"] = len(disk.events_for(path, ("twrite",)))
     rec["nraw"] = len(disk.events_for(path, ("rwrite",)))
     return rec
@@ -620,7 +628,63 @@ def _plain_object_reloads(w):
     return rec0["exc"] is None and _reloads(w0, rec0)
 
 
+PREFLIGHT = ("FileFormatError", "PrepareDumpError", "WriteInputError", "DumpError")
+
+
+def env_variant(w, kind):
+    """The same workload in another environment: target in a directory that does not exist / working directory gone."""
+    v = copy.deepcopy(w)
+    v["faults"] = []
+    if kind == "missing_dir":
+        v["env"] = {"missing_dir": "job1"}
+        v["filename"] = "job1/out/" + w["filename"]
+        v["target_pre"] = None
+    else:
+        v["env"] = {"cwd_gone": True}
+    return v
+
+
+def judge_env(v, rec, base):
+    """Oracle of the environment variants (base = the same workload in the ordinary environment, fault-free)."""
+    out = []
+    exc, bexc = rec["exc"], base["exc"]
+    et = type(exc).__name__ if exc is not None else None
+    bet = type(bexc).__name__ if bexc is not None else None
+    env = v["env"]
+    if isinstance(exc, (StepBudgetExceeded, WallBudgetExceeded)) or (exc is not None and not isinstance(exc, Exception)):
+        return [_v("liveness", f"the call did not return: {exc}", v, "env")]
+    if (v.get("knobs") or {}).get("warnings") == "error" or isinstance(bexc, (StepBudgetExceeded, WallBudgetExceeded)):
+        return out
+    if env.get("missing_dir"):
+        rejected_untouched = bet in PREFLIGHT and base["open_events"] == 0
+        if rejected_untouched:
+            # rejected before anything is touched: the same rejection, and nothing appears in the file system
+            if et != bet:
+                out.append(_v("wrong_exception", f"target in a missing directory: {et} ({exc}) instead of the {bet} the call gets elsewhere", v, f"env/missing_dir/{et}"))
+            if rec["mkdirs"] or rec["bytes"] is not None or rec["open_events"]:
+                out.append(_v("touched_before_error", f"the call is rejected ({et}) but the file system was touched: directories created {rec['mkdirs']}, "
+                              f"target {'created' if rec['bytes'] is not None else 'absent'}", v, "env/missing_dir"))
+        elif exc is not None and et not in PREFLIGHT and not isinstance(exc, OSError) and et != "CallerFault":
+            out.append(_v("wrong_exception", f"target in a missing directory: {et} escaped: {exc}", v, f"env/missing_dir/{et}"))
+    if env.get("cwd_gone"):
+        # relative names need no working-directory lookup: same outcome as in the ordinary environment
+        if et != bet:
+            out.append(_v("wrong_exception", f"working directory removed: {et} ({exc}) instead of {bet or 'success'}", v, f"env/cwd_gone/{et}"))
+        elif exc is None and rec["bytes"] != base["bytes"]:
+            out.append(_v("bytes_differ", "working directory removed: other bytes written than in the ordinary environment", v, "env/cwd_gone"))
+    if rec["handles_open"]:
+        out.append(_v("handle_leak", f"{rec['handles_open']} handle(s) still open ({et})", v, "env"))
+    return out
+
+
 def execute(trace):
+    if trace.get("env"):
+        w0 = copy.deepcopy(trace)
+        w0.pop("env")
+        if trace["env"].get("missing_dir"):
+            w0["filename"] = trace["filename"].split("/")[-1]
+        base = run_once(w0, [])
+        return judge_env(trace, run_once(trace, [], max(20 * base["steps"], 2_000_000)), base)
     base = None
     if not trace.get("no_baseline"):
         w0 = copy.deepcopy(trace)
@@ -718,6 +782,18 @@ def run_task(task):
     if base["exc"] is None and w["op"] != "write_input" and not d:
         stats.add("valid_workloads", f"{w['op']}:{w['fmt']}")
     sample = None
+    # the same workload in two other environments (own PRNG stream): target in a directory that does not exist, and
+    # the working directory removed under the process
+    erng = common.rng_for(task["seed"], ID, task["run"], "env")
+    if w.get("iter_kind") != "gen_reentrant" and not isinstance(base["exc"], (StepBudgetExceeded, WallBudgetExceeded)):
+        for kind, p_ in (("missing_dir", 0.3), ("cwd_gone", 0.2)):
+            if erng.random() < p_:
+                v = env_variant(w, kind)
+                rec = run_once(v, [], max(20 * base["steps"], 2_000_000))
+                n += 1
+                viols.extend(judge_env(v, rec, base))
+                stats.inc(f"fault.env_{kind}")
+                digest_parts.append((kind, type(rec["exc"]).__name__ if rec["exc"] is not None else "ok", rec["mkdirs"]))
     # faults only where a file is actually written (and the fault-free call returned at all)
     if base["open_events"] and (base["ntext"] or base["nraw"]) and not isinstance(base["exc"], (StepBudgetExceeded, WallBudgetExceeded)):
         budget = max(20 * base["steps"], 2_000_000)
